@@ -12,6 +12,7 @@ import (
 	"pgregory.net/rapid"
 	"verif.local/harness/hx"
 	"verif.local/simrt"
+	simsync "verif.local/simrt/simsync"
 	simtime "verif.local/simrt/simtime"
 )
 
@@ -214,7 +215,8 @@ func runC05Seq(sc *C05Scenario, keepLog bool) *hx.Outcome {
 	var log []string
 	now := sc.BaseSec
 	simtime.Manual = func() time.Time { return time.Unix(now, 0) }
-	defer func() { simtime.Manual = nil }()
+	simsync.SingleGoroutine = true
+	defer func() { simtime.Manual, simsync.SingleGoroutine = nil, false }()
 	c := cache.NewTTLMemCache(sc.Size, sc.DefTTL)
 	m := map[int]*mEntry{}
 	var touch int64
@@ -391,7 +393,8 @@ func runC05Redis(sc *C05Scenario, keepLog bool) *hx.Outcome {
 	var log []string
 	now := sc.BaseSec
 	simtime.Manual = func() time.Time { return time.Unix(now, 0) }
-	defer func() { simtime.Manual = nil }()
+	simsync.SingleGoroutine = true
+	defer func() { simtime.Manual, simsync.SingleGoroutine = nil, false }()
 	cli, fr := newFakeRedis(func() int64 { return now * 1000 })
 	defer cli.Close()
 	rc := cache.NewTTLRdsCache(cli, "p:", sc.DefTTL)
